@@ -1,0 +1,6 @@
+//go:build verif
+
+package bls
+
+// VerifMsk exposes the secret polynomial coefficients of the party (verification harness only).
+func (dkg *DKG) VerifMsk() []Key { return dkg.msk }
